@@ -97,14 +97,12 @@ def const_values(node, fn):
 
 
 def returned_strings(fn):
-    """String constants a function can return (every return must be a constant or a
-    conditional of constants); raises if a return is not constant."""
+    """String constants a function can return, from its paths (helpers inlined, module constants and literal lookup
+    tables resolved, conditional expressions split); raises if some path returns something else."""
+    from .pysym import SymExec, path_values, show
     out = []
-    for n in ast.walk(fn):
-        if isinstance(n, ast.Return):
-            v = const_values(n.value, fn) if n.value is not None else {None}
-            if v is None:
-                raise AnalysisError('non-constant return in %s:%s' % (fn.name, n.lineno))
-            for x in v:
-                out.append((x, n))
+    for conds, v in path_values(SymExec(fn, unroll=1).run()):
+        if v[0] != 'const':
+            raise AnalysisError('non-constant return in %s: %s' % (fn.name, show(v)[:80]))
+        out.append((v[1], fn))
     return out
